@@ -1,5 +1,6 @@
 import SpoxModel.Lemmas.Emit
 import SpoxModel.Model.Custom
+import SpoxModel.Model.CustomInline
 import SpoxModel.Props.C04
 /-!
 # C18 — user-defined operators are emitted verbatim and compose like standard ones
@@ -375,5 +376,77 @@ example : maxOpsetPolicy [("", 17), ("my.domain", 2), ("ai.onnx", 18), ("my.doma
 example : inference (fun (t : Nat) (v : Nat) => t == v) [("y", 1), ("junk", 9)] [("y", 2), ("z", 1), ("junk", 0)]
       (freshOuts ["y", "z"]) =
     ([⟨"y", some 1, none⟩, ⟨"z", none, none⟩], [Warn.dropped "y"]) := by decide
+
+/-! ## a user-defined operator inside an inlined model, under opset adaptation -/
+
+section adapt
+open CustomInline
+
+private theorem filter_default_append (l e : List (String × Nat))
+    (he : ∀ i ∈ e, isDefault i.1 = false) :
+    (l ++ e).filter (fun i => isDefault i.1) = l.filter (fun i => isDefault i.1) := by
+  rw [List.filter_append]
+  have : e.filter (fun i => isDefault i.1) = [] := by
+    apply List.filter_eq_nil_iff.mpr
+    intro i hi; simp [he i hi]
+  rw [this, List.append_nil]
+
+/-- **adapt_ignores_foreign.** Whether an inlined model is converted, and from which version to
+    which, does not depend on nodes and opset imports of other domains: adding any number of
+    user-defined (or `ai.onnx.ml`, `com.microsoft`, …) nodes and imports to a model leaves
+    `adapt_inline`'s decision unchanged. -/
+theorem adapt_ignores_foreign (m : Inlined) (target : Nat)
+    (doms : List String) (imps : List (String × Nat))
+    (hd : ∀ d ∈ doms, isDefault d = false) (hi : ∀ i ∈ imps, isDefault i.1 = false) :
+    CustomInline.decide { imports := m.imports ++ imps, nodeDomains := m.nodeDomains ++ doms } target =
+      CustomInline.decide m target := by
+  have h1 : (m.nodeDomains ++ doms).any isDefault = m.nodeDomains.any isDefault := by
+    rw [List.any_append]
+    have : doms.any isDefault = false := by
+      apply List.any_eq_false.mpr
+      intro d hd'; simp [hd d hd']
+    rw [this, Bool.or_false]
+  have h2 : sourceVersion (m.imports ++ imps) target = sourceVersion m.imports target := by
+    unfold sourceVersion
+    rw [filter_default_append _ _ hi]
+  simp only [CustomInline.decide, h1, h2]
+
+/-- **adapt_converts_older.** A model with at least one default-domain node, written against a
+    default-domain version other than the target, is converted — whatever else it contains. -/
+theorem adapt_converts_older (m : Inlined) (target : Nat)
+    (hn : m.nodeDomains.any isDefault = true) (hv : sourceVersion m.imports target ≠ target) :
+    CustomInline.decide m target = .convert (sourceVersion m.imports target) target := by
+  simp [CustomInline.decide, hn, hv]
+
+/-- **convert_keeps_foreign.** The conversion passes every node of another domain through
+    verbatim and in place: the foreign nodes of the result are exactly the foreign nodes of the
+    original, in order (given that the converter's rewrites stay in the default domain). -/
+theorem convert_keeps_foreign {ν : Type} (dom : ν → String) (conv : ν → List ν) (nodes : List ν)
+    (hc : ∀ n, ∀ x ∈ conv n, isDefault (dom x) = true) :
+    (convertNodes dom conv nodes).filter (fun n => !isDefault (dom n)) =
+      nodes.filter (fun n => !isDefault (dom n)) := by
+  induction nodes with
+  | nil => rfl
+  | cons n rest ih =>
+    simp only [convertNodes, List.flatMap_cons, List.filter_append] at ih ⊢
+    by_cases h : isDefault (dom n) = true
+    · have : (conv n).filter (fun x => !isDefault (dom x)) = [] := by
+        apply List.filter_eq_nil_iff.mpr
+        intro x hx; simp [hc n x hx]
+      simp only [h, if_true, this, List.nil_append, List.filter_cons, Bool.not_true, Bool.false_eq_true, if_false]
+      exact ih
+    · have h' : isDefault (dom n) = false := by simpa using h
+      simp only [h', Bool.false_eq_true, if_false, List.filter_cons, Bool.not_false, if_true,
+        List.filter_nil, List.cons_append, List.nil_append]
+      exact congrArg _ ih
+
+/-- non-vacuity: ai.onnx 12 + `my.domain` 2 under target 19 is converted 12 → 19, with or
+    without the custom node; a model of custom nodes only is kept -/
+example : CustomInline.decide { imports := [("", 12), ("my.domain", 2)], nodeDomains := ["my.domain", "", "my.domain"] } 19
+    = .convert 12 19 := by decide
+example : CustomInline.decide { imports := [("", 12)], nodeDomains := [""] } 19 = .convert 12 19 := by decide
+example : CustomInline.decide { imports := [("", 12), ("my.domain", 2)], nodeDomains := ["my.domain"] } 19 = .keep := by decide
+
+end adapt
 
 end C18
